@@ -56,7 +56,7 @@ class RangeHandler(http.server.BaseHTTPRequestHandler):
                 # transfer failure: announce the whole range, deliver k bytes, cut the connection
                 k = min(plan["cuts"][plan["i"]], len(part) - 1)
                 plan["i"] += 1
-                RangeHandler.log.append((self.path, a, b, k))
+                RangeHandler.log.append((self.path, a, b, k, self.headers.get("X-Verif-Token", "")))
                 self.send_response(206)
                 self.send_header("Content-Length", str(len(part)))
                 self.send_header("Connection", "close")
@@ -69,7 +69,7 @@ class RangeHandler(http.server.BaseHTTPRequestHandler):
                     pass
                 self.close_connection = True
                 return
-            RangeHandler.log.append((self.path, a, b, -1))
+            RangeHandler.log.append((self.path, a, b, -1, self.headers.get("X-Verif-Token", "")))
             self.send_response(206)
             self.send_header("Content-Length", str(len(part)))
             self.send_header("Content-Range", "bytes %d-%d/%d" % (a, b, len(body)))
